@@ -165,7 +165,7 @@ class Recorder:
                 obj = self.entries[key][0]
             else:
                 self.misses += 1
-                obj = self.orig.__wrapped__(*a, **k)      # an exception is not cached (as lru_cache)
+                obj = getattr(self.orig, "__wrapped__", self.orig)(*a, **k)   # an exception is not cached (as lru_cache)
                 self.entries[key] = (obj, a, k)
         else:
             obj = self.orig(*a, **k)
@@ -176,7 +176,8 @@ class Recorder:
     def cache_clear(self):
         self.entries.clear()
         self.window.clear()
-        self.orig.cache_clear()
+        if hasattr(self.orig, "cache_clear"):
+            self.orig.cache_clear()
 
     def cache_info(self):
         return self.orig.cache_info()
@@ -209,7 +210,7 @@ class Caches:
         if rec.kind == "parse":
             d = ast.dump(ast.parse(*a, **k), include_attributes=True)
         elif rec.kind == "template":
-            d = sdump(rec.orig.__wrapped__(*a, **k))
+            d = sdump(getattr(rec.orig, "__wrapped__", rec.orig)(*a, **k))
         else:
             # recompute without any cache underneath
             core, tracing = self.mods["core"], self.mods["tracing"]
